@@ -9,6 +9,12 @@ from genlib import *
 BALANCED = [256, 512, 1024, 2048, 4096, 8192, 16384]
 UNBAL_N = [256, 512, 1024]
 
+# further unbalanced shapes (not powers of two) on which the universal clause "an unbalanced product
+# costs no more than the schoolbook count" (theorem C20_quadratic, for ALL operands) is also observed
+# on the implementation's counter; a shape that exceeds lx*ly is a failing input for the property
+EXTRA_UNBAL = [(257, 3 * 257), (257, 64 * 257), (300, 900), (300, 2400), (300, 19200), (330, 21120),
+               (400, 25600), (513, 1026), (513, 32832), (700, 2100), (1000, 3000), (33, 64 * 33), (65, 64 * 65)]
+
 def bank(tier):
     out = [(n, n) for n in BALANCED]
     for n in UNBAL_N:
@@ -76,7 +82,7 @@ def extra_checks(ctx):
     ok, hbin, hlog = ctx["build_harness"]()
     if not ok:
         return {"coverage": {"bank": "hooks unavailable: " + hlog[:200]}, "broken": ["corr:work-counter-unavailable"]}
-    shapes = bank(ctx["tier"])
+    shapes = bank(ctx["tier"]) + EXTRA_UNBAL
     lines = ["%d h.bank_cost n:%d n:%d" % (i, a, b) for i, (a, b) in enumerate(shapes)]
     res = ctx["run_sharded"](hbin, lines, "bank", ctx["workdir"])
     cost = {}
